@@ -1089,7 +1089,86 @@ func runSweepGuard(c *core.Ctx) {
 	}
 	c.SetTags("safety")
 	c.Check(keepOK, "removal-needs-unmarked", del.Pos(), "the blob removal at %s is dominated by the ‘not in the keep-set’ edge of a lookup keyed by the loop's blob: %v — otherwise retained content is deleted", c.P.Pos(del.Pos()), keepOK)
-	_ = keepMap
+	// (1b) the keep-set is the set the mark phase fills: where the collector puts the config digest of a walked image
+	//      manifest into a set (seen[man.Config.Digest] = true, possibly in a helper the set is handed to), the lookup that
+	//      protects a blob from the sweep reads that very set.  Judged only when both sides resolve to the place the map
+	//      was made; a set that cannot be followed gives no verdict here.
+	if keepMap != nil {
+		var made func(v ssa.Value, depth int) ssa.Value
+		made = func(v ssa.Value, depth int) ssa.Value {
+			v = resolveAcross(c, v, 0)
+			switch x := an.Strip(v).(type) {
+			case *ssa.MakeMap:
+				return x
+			case *ssa.Call:
+				callee := x.Call.StaticCallee()
+				if callee == nil || x.Call.IsInvoke() {
+					return nil
+				}
+				if _, isMap := x.Type().Underlying().(*types.Map); !isMap {
+					return nil
+				}
+				// the mark step that hands its set out (seen := markReachable(…)): the map it returns, when this is its
+				// only call; a constructor used in several places is told apart by the call
+				if len(callee.Blocks) > 0 && len(c.P.Callers(callee)) == 1 && depth < 4 {
+					var got ssa.Value
+					okAll := true
+					an.Instrs(callee, func(in ssa.Instruction) {
+						if ret, isRet := in.(*ssa.Return); isRet && len(ret.Results) == 1 {
+							m := made(ret.Results[0], depth+1)
+							if m == nil || (got != nil && got != m) {
+								okAll = false
+							}
+							got = m
+						}
+					})
+					if okAll && got != nil {
+						return got
+					}
+					return nil
+				}
+				return x
+			}
+			return nil
+		}
+		var markSets []ssa.Value
+		resolvedAll := true
+		for _, sf := range sharedStoreFuncs(c) {
+			an.Instrs(sf, func(in ssa.Instruction) {
+				var m, key ssa.Value
+				switch x := in.(type) {
+				case *ssa.MapUpdate:
+					m, key = x.Map, x.Key
+				case *ssa.Call:
+					if setMethodSSA(x.Call.StaticCallee()) == "add" && len(x.Call.Args) == 2 {
+						m, key = x.Call.Args[0], x.Call.Args[1]
+					}
+				}
+				if m == nil {
+					return
+				}
+				root, pth := accessPath(an.Strip(key))
+				if len(pth) < 2 || pth[len(pth)-1] != "Digest" || pth[len(pth)-2] != "Config" || root == nil {
+					return
+				}
+				if mm := made(m, 0); mm != nil {
+					markSets = append(markSets, mm)
+				} else {
+					resolvedAll = false
+				}
+			})
+		}
+		if km := made(keepMap, 0); km != nil && len(markSets) > 0 && resolvedAll {
+			same := false
+			for _, ms := range markSets {
+				if ms == km {
+					same = true
+				}
+			}
+			c.SetTags("safety")
+			c.Check(same, "keep-set-is-mark-set", del.Pos(), "the set whose members the sweep spares (made at %s) is the set the mark phase puts the config digest of every walked image into (made at %s): %v — a sweep that consults another set deletes the configs and layers of retained images", c.P.Pos(km.Pos()), c.P.Pos(markSets[0].Pos()), same)
+		}
+	}
 	// (2) grace test
 	graceOK, graceKnown, graceDirBad := false, false, false
 	for _, b := range fn.Blocks {
@@ -1219,7 +1298,7 @@ func runSweepGuard(c *core.Ctx) {
 					base, neg := an.CondBase(ifi.Cond)
 					if lkX, lkIndex, ok := setLookup(base); ok && an.Origin(lkIndex) == dkey {
 						isTrue := (succ == 0) != neg
-						if isTrue && an.Origin(lkX) == an.Origin(keepMap) {
+						if isTrue && (an.Origin(lkX) == an.Origin(keepMap) || resolveAcross(c, lkX, 0) == resolveAcross(c, keepMap, 0)) {
 							s = 1
 						}
 						if !isTrue && isMember(an.Origin(lkX)) {
@@ -1303,6 +1382,34 @@ func runSweepGuard(c *core.Ctx) {
 				}
 			}
 			reported := false
+			// the result record kept in a local and updated in place (res.mod = true next to the removal)
+			an.Instrs(fn, func(in ssa.Instruction) {
+				st, ok := in.(*ssa.Store)
+				if !ok || !chain[st.Block()] {
+					return
+				}
+				if bv, isC := an.ConstBool(st.Val); !isC || !bv {
+					return
+				}
+				fa, ok := st.Addr.(*ssa.FieldAddr)
+				if !ok {
+					return
+				}
+				al, ok := fa.X.(*ssa.Alloc)
+				if !ok {
+					return
+				}
+				// that local is what the function returns
+				an.Instrs(fn, func(in2 ssa.Instruction) {
+					if ret, ok := in2.(*ssa.Return); ok {
+						for _, rv := range ret.Results {
+							if u, ok := an.Strip(rv).(*ssa.UnOp); ok && u.Op == token.MUL && u.X == ssa.Value(al) {
+								reported = true
+							}
+						}
+					}
+				})
+			})
 			for _, b := range fn.Blocks {
 				for _, in := range b.Instrs {
 					phi, ok := in.(*ssa.Phi)
@@ -1714,6 +1821,12 @@ var _ = sort.Strings
 // element taken from a slice of descriptors in a loop (the popped element of the mark worklist).
 func memberCover(c *core.Ctx, m ssa.Value) (idx, pop bool) {
 	m = callerArg(c, m)
+	if m != nil && m.Referrers() != nil && len(setInserts(m)) == 0 {
+		// a set that travels in a record (marks.inIndex): the map the record's field was filled with
+		if r := resolveAcross(c, m, 0); r != nil {
+			m = r
+		}
+	}
 	if m == nil || m.Referrers() == nil {
 		return false, false
 	}
